@@ -1,5 +1,5 @@
 From Coq Require Import Extraction ExtrOcamlBasic.
-From Elk Require Import Base.GoSem Base.Utf8 Model.C20_String.
+From Elk Require Import Base.GoSem Base.Utf8 Model.C20_String Model.C20_Iter.
 Extraction Language OCaml.
 Extraction Blacklist List String Nat.
 
@@ -9,5 +9,6 @@ Separate Extraction
   char_at byte_at grapheme_at rjust ljust
   concat_string concat_char repeat remove_suffix remove_suffix_char
   cmp cmp_char lt le gt ge uppercase lowercase
+  iter_run iter_spec gseg_of elems
   decode_all encode_rune encode_all valid_string rune_count runes
   Z.of_nat Z.to_nat Z.add Z.mul Z.opp Z.sub Z.compare Z.eqb Z.ltb Z.leb Pos.to_nat N.of_nat N.to_nat.
